@@ -207,10 +207,14 @@ def contents():
         'hpoa': [('ascii', hpoa_text('DISEASE', 5)), ('non-ascii', hpoa_text('MALADIE é ß 病', 7)), ('ascii-2', hpoa_text('OTHER', 3)),
                  ('bom', '\ufeff' + hpoa_text('BOM é', 4)),
                  ('odd-separators', hpoa_text('A\u2028B\x85C\x0cD\x1cE\x0bF\u2029G', 4)),
-                 ('crlf', hpoa_text('CRLF é', 4).replace('\n', '\r\n'))],
+                 ('crlf', hpoa_text('CRLF é', 4).replace('\n', '\r\n')), ('lone-cr', hpoa_text('LONE CR', 4).replace('\n', '\r'))],
         'csv': [('a', csv_text('first', 4)), ('b', csv_text('second é', 6)), ('c', csv_text('third', 2)), ('bom', '\ufeff' + csv_text('bom', 3)),
                 ('odd-separators', csv_text('m\u2028n\x85o\x0cp\x1cq\x0br\u2029s', 3)),
-                ('crlf', csv_text('crlf é', 3).replace('\r\n', '\n').replace('\n', '\r\n'))],
+                ('crlf', csv_text('crlf é', 3).replace('\r\n', '\n').replace('\n', '\r\n')),
+                # a bare carriage return / a line break followed by `#` INSIDE a quoted term id, a record that begins with `#`, and a file
+                # whose lines end with a bare carriage return: every source kind must make the same of the same characters
+                ('quoted-cr', csv_text('qcr', 2) + '"A\rB:1",HP:0000002,1.5\r\n"HP:1\n#x","C\r\nD:2",0.5\r\n#X:1,HP:0000003,2.5\r\n'),
+                ('lone-cr', csv_text('lcr é', 3).replace('\r\n', '\n').replace('\n', '\r'))],
     }
 
 
@@ -293,6 +297,19 @@ def reader_product(ctx, w):
                                       {'case': {'kind': 'reader', 'function': fname, 'source': kind, 'content': tag, 'gz_layout': layout},
                                        'impl': {'got': str(got)[:600], 'reference(plain path)': str(ref)[:600]},
                                        'theorem': 'Hpv.Props.C16.same_result'})
+            # a text file the caller opened the DEFAULT way (universal newlines: CRLF / CR arrive as LF) is the same document; the
+            # result must not depend on how its lines end. (Not for the content with a carriage return INSIDE a quoted field: there the
+            # caller's stream delivers other characters.)
+            if ref is not None and ref[0] == 'ok' and tag != 'quoted-cr':
+                w.put(text, '.' + ctype, 'single')
+                ctx.case(['read', fname, 'textFileUniversal', tag], True, 'readers x kinds x contents x gz layouts',
+                         sample={'function': fname, 'source': 'textFileUniversal', 'content': tag})
+                with open(w.plain, 'r', encoding='utf-8') as src:
+                    got = outcome_of(fn, src)
+                if got != ref:
+                    ctx.violation(f'{fname}:textFileUniversal', {'case': {'kind': 'reader', 'function': fname, 'source': 'textFileUniversal', 'content': tag, 'gz_layout': 'single'},
+                                                                  'impl': {'got': str(got)[:600], 'reference(plain path)': str(ref)[:600]},
+                                                                  'theorem': 'Hpv.Props.C16.same_result'})
             # a text stream the CALLER opened with another encoding carries the same characters: same result
             if tag == 'ascii-2' or tag == 'c':
                 latin = text.replace('Another label', 'Étiquette ü ß').replace('third', 'troisième ü').replace('OTHER', 'AUTRE é')
